@@ -24,6 +24,7 @@ import (
 func TestMain(m *testing.M) { ev.Main(m) }
 
 type lstats struct {
+	sharedSig *pipeline.Signature
 	maxCmdDepth     int
 	unknownDepth    int // -1 none
 	ncmd, nunknown  int
@@ -87,6 +88,17 @@ func genSteps(g *sgen.G, t *rapid.T, depth int, allowUnknown bool, st *lstats, p
 						s.Env[nme] = "step-" + nme
 					}
 				}
+			}
+			// steps may arrive signed already (a signed pipeline uploaded again; a step duplicated by struct
+			// copy shares its Signature object with the original): each leaves with a signature of its own
+			switch rapid.IntRange(0, 5).Draw(t, "presigned") {
+			case 0:
+				if st.sharedSig == nil {
+					st.sharedSig = &pipeline.Signature{Algorithm: "EdDSA", SignedFields: []string{"command"}, Value: "stale"}
+				}
+				s.Signature = st.sharedSig
+			case 1:
+				s.Signature = &pipeline.Signature{Algorithm: "none", SignedFields: []string{"command", "env::GONE"}, Value: "stale too"}
 			}
 			for k, v := range attrs(t) {
 				if k == "signature" {
